@@ -136,6 +136,13 @@ def make_weather(spec):
     if w.get("keep_labels_from") is not None:   # drop the first k rows WITHOUT resetting the index (labels start at k)
         k = int(w["keep_labels_from"])
         df = df[df.index >= k]
+    if w.get("index_style") == "concat":
+        # extra rows concatenated in front of / behind the record WITHOUT ignore_index: the labels restart, in-window rows share labels
+        # with rows outside the window
+        k = min(max(lead, 1), len(df))
+        df.index = list(range(k)) + list(range(len(df) - k))
+    elif w.get("index_style") == "yearly":
+        df.index = [int(x) - 1 for x in pd.DatetimeIndex(df["Date"].values).dayofyear]   # yearly files concatenated
     return df
 
 
@@ -262,6 +269,17 @@ def make_irr(irs):
                 "Depth": [float(x) for _, x in sch],
             }
         )
+        style = irs.get("schedule_style")
+        if style == "object_ts":
+            # the construction shown in the IrrigationManagement docstring: DataFrame([dates, depths]).T -> object-dtype columns
+            df = pd.DataFrame([pd.DatetimeIndex(df["Date"]), [x for _, x in sch]]).T
+            df.columns = ["Date", "Depth"]
+        elif style == "object_str":
+            # the same construction from date STRINGS (an object-dtype column of text dates)
+            df = pd.DataFrame([[d.replace("/", "-") for d, _ in sch], [x for _, x in sch]]).T
+            df.columns = ["Date", "Depth"]
+        elif style == "reversed":
+            df = df.iloc[::-1].reset_index(drop=True)      # rows listed latest first
         kw["Schedule"] = df
     return IrrigationManagement(irrigation_method=irs["method"], **kw)
 
